@@ -55,3 +55,16 @@ Section Kernels.
   Lemma seek_cur_pos_eq k c : Src.seek_cur_pos CHUNK k c = Ok (k * CHUNK + c).
   Proof. reflexivity. Qed.
 End Kernels.
+
+(* ---- mlar get_extracted_path: the component filter (C16) ---- *)
+From MLA Require Path.
+Definition embed_component (c : Path.component) : Src.src_component :=
+  match c with
+  | Path.RootDir => Src.SRootDir | Path.CurDir => Src.SCurDir
+  | Path.ParentDir => Src.SParentDir | Path.Normal _ => Src.SNormal
+  end.
+Definition embed_action (a : Path.action) : Src.src_action :=
+  match a with Path.Skip => Src.SSkip | Path.Refuse => Src.SRefuse | Path.Push _ => Src.SPush end.
+Lemma component_action_eq c :
+  Src.component_action (embed_component c) = embed_action (Path.component_action c).
+Proof. destruct c; reflexivity. Qed.
